@@ -19,6 +19,7 @@ def run_case_impl(case):
     ex.vr_eps = case.get('vr_eps')
     ost = oracles.State(ex)
     out = []
+    eff = case['effective'] = {}
     for l in case['lines']:
         if l.startswith('!'):
             try:
@@ -28,6 +29,8 @@ def run_case_impl(case):
                 out.append('ORACLE-ERROR %s: %r' % (l, e))
         else:
             out.append(ex.run(l))
+            if ex.effective is not None and ex.effective != l:
+                eff[len(out) - 1] = ex.effective
     return out
 
 
@@ -70,7 +73,7 @@ def process_chunk(cases):
         for li, l in enumerate(case['lines']):
             if l.startswith('!'):
                 continue
-            mlines.append(l); index.append((ci, li, 'op'))
+            mlines.append(case.get('effective', {}).get(li, l)); index.append((ci, li, 'op'))
             if case.get('judge') and l.startswith('obs ') and impl_out[ci][li].startswith('ok '):
                 m = re.search(r'S=\[.*?\] seq=', impl_out[ci][li])
                 if m and ' idx=' not in impl_out[ci][li]:
@@ -113,6 +116,11 @@ def process_chunk(cases):
                         # the request is invalid only if the model rejects it (a shrunk script may have made it valid)
                         prev = max((k for k in per_case_model[ci] if k < li), default=None)
                         if prev is None or per_case_model[ci][prev] != 'rej':
+                            continue
+                    if l.split()[0] == '!lastok':
+                        # likewise the call is valid only if the model accepts it
+                        prev = max((k for k in per_case_model[ci] if k < li), default=None)
+                        if prev is None or not per_case_model[ci][prev].startswith('ok'):
                             continue
                     oracle_fails.append((li, l, io))
                 continue
